@@ -14,7 +14,9 @@ Oracle : the harness evaluates every condition itself, exactly (Fractions, in th
   body-line-twice:<kind>               a body line takes effect twice between two armings (Alarm: re-arm = new arming)
   fired-without-condition:<kind>[:rearm]  first body effect of an arming with no may-be-true tick in [arming tick, effect
                                        tick] and no accepted force since the previous run
-  ran-after-cancel:<kind>              body effect after an accepted cancel (until the node is armed anew)
+  ran-after-cancel:<kind>[:ctx]        body effect after an accepted cancel (until the node is armed anew); ctx =
+                                       armed-after-block-end | accepted-after-activation (cancel accepted although the
+                                       node had activated in this arming) | in-alarm (node inside an Alarm body) | none
   body-after-block-end:<how>           body effect in a later tick than the end event of a lexically enclosing Block;
                                        how = armed-before-end | armed-after-end (armed when the block had already ended and
                                        running while the block has not started again)
@@ -50,7 +52,7 @@ ASSUMPTIONS = [
     "bounded response of a Watch is read from the title ('runs once after its condition holds'); of an Alarm from 're-armed'",
     "UOD command starts are given one tick of slack against cancel / block end (a command requested in a tick may start in the next)",
 ]
-TIERS = {"quick": {"examples": 6400, "budget_s": 150, "deep": False},
+TIERS = {"quick": {"examples": 4800, "budget_s": 150, "deep": False},
          "thorough": {"examples": 160000, "budget_s": 1500, "deep": True}}
 MARGIN = 2
 INF = 10 ** 9
@@ -205,7 +207,9 @@ def analyse(case, tr, latency):
                 # inside an Alarm body the node state of one arming can be carried into the next one (the statement does not
                 # define armings): the window then starts at the previous arming
                 t_from = ev[A[j - 1]][0] if (q["alarm_anc"] and j > 0) else ta
-                forced = any(r[2] == "force" and prev_act < r[0] < first for r in reqs[x])
+                # (likewise a forced run that an enclosing Alarm splits over two armings is one forced run)
+                f_from = A[j - 1] if (q["alarm_anc"] and j > 0) else prev_act
+                forced = any(r[2] == "force" and min(prev_act, f_from) < r[0] < first for r in reqs[x])
                 if forced:
                     info["forced_fire"] += 1
                 elif not any(may(x, t) for t in range(t_from, k + 1)):
@@ -241,8 +245,12 @@ def analyse(case, tr, latency):
             for r in cancels:
                 late = [f[0] for f in seg_effs if f[0] > r[0] and (not f[3] or f[1] > r[1])]
                 if late:
-                    viol("ran-after-cancel:%s" % kind, "%s (%s): cancel accepted before tick %d, but body lines took effect at ticks %r"
-                         % (x, q["text"], r[1], sorted({ev[i][0] for i in late})))
+                    # root-cause context in the signature: the cancelled arming was itself made after the enclosing block
+                    # had ended / the cancel was accepted although the node had already activated in this arming
+                    ctx = ":armed-after-block-end" if zombie_arm else (":accepted-after-activation" if any(i < r[0] for i in seg_acts)
+                                                                       else (":in-alarm" if q["alarm_anc"] else ""))
+                    viol("ran-after-cancel:%s%s" % (kind, ctx), "%s (%s), armed at tick %d, activations at ticks %r: cancel accepted before tick %d, but body lines took effect at ticks %r"
+                         % (x, q["text"], ta, [ev[i][0] for i in seg_acts], r[1], sorted({ev[i][0] for i in late})))
                 elif any(i > r[0] for i in seg_acts):
                     info["activation_only_after_cancel"] += 1
                 else:
